@@ -27,6 +27,7 @@ import (
 	"encoding/json"
 	"fmt"
 	"io"
+	"math"
 	"math/rand"
 	"os"
 	"sort"
@@ -395,6 +396,10 @@ func c09MiscOps() []*c09Op {
 	ops = append(ops,
 		&c09Op{text: "SafeInt(-12)", pieces: c09One(true, "-12"), valid: true, run: func(t *c09Tgt) { t.sw.SafeInt(-12) }},
 		&c09Op{text: "SafeUint(7)", pieces: c09One(true, "7"), valid: true, run: func(t *c09Tgt) { t.sw.SafeUint(7) }},
+		// the extremes of the integer payloads (a SafeUint at or above 2^63 must not come out negative)
+		&c09Op{text: "SafeUint(1<<63)", pieces: c09One(true, "9223372036854775808"), valid: true, run: func(t *c09Tgt) { t.sw.SafeUint(1 << 63) }},
+		&c09Op{text: "SafeUint(math.MaxUint64)", pieces: c09One(true, "18446744073709551615"), valid: true, run: func(t *c09Tgt) { t.sw.SafeUint(math.MaxUint64) }},
+		&c09Op{text: "SafeInt(math.MinInt64)", pieces: c09One(true, "-9223372036854775808"), valid: true, run: func(t *c09Tgt) { t.sw.SafeInt(math.MinInt64) }},
 		&c09Op{text: "SafeFloat(1.5)", pieces: c09One(true, "1.5"), valid: true, run: func(t *c09Tgt) { t.sw.SafeFloat(1.5) }},
 		&c09Op{text: "Print(1, 2)", pieces: []c09Piece{{false, "1"}, {true, " "}, {false, "2"}}, valid: true, run: func(t *c09Tgt) { t.sw.Print(1, 2) }},
 		&c09Op{text: "Print(Safe(1), \"x\", Safe(2), Safe(3))", pieces: []c09Piece{{true, "1"}, {false, "x"}, {true, "2 3"}}, valid: true,
